@@ -95,6 +95,7 @@ type lexer struct {
 
 // initialize/reset lexer with data string to lex
 func (l *lexer) init(data string) {
+    data = stripComments(data) // comments are whitespace; the lexer has no rule for them
     l.p, l.pe = 0, len(data)
     l.data = data
 }
